@@ -1,0 +1,9 @@
+//go:build !verif
+
+package updog
+
+import "go.etcd.io/bbolt"
+
+// verifPoint marks a point right after a committed writer transaction. It does nothing
+// unless the package is built with the "verif" build tag (see verif_on.go).
+func verifPoint(string, *bbolt.DB) {}
